@@ -231,6 +231,36 @@ class Runner:
     def is_known(self, sig: dict[str, Any]) -> bool:
         return any(all(sig.get(k) == v for k, v in kf.get("match", {}).items()) for kf in self.known)
 
+    def _touches_reused_id(self, op: dict[str, Any], obs: Any, ref: Any) -> bool:
+        """F12b is claimed only for a mismatch that involves an id SQLite handed out again: the call addresses such a study /
+        trial, or one of the two answers contains a trial carrying such an id.  Any other stale read after a reuse event is
+        judged as a stale read."""
+        import re as _re
+
+        ex = self.ex_ref
+        rs = {int(m) for e in ex.reuse_events for m in _re.findall(r"study id (\d+)", e)}
+        rt = {int(m) for e in ex.reuse_events for m in _re.findall(r"trial id (\d+)", e)}
+        if "sid" in op and isinstance(op["sid"], int) and ex.s2r.get(op["sid"]) in rs:
+            return True
+        if "tid" in op and isinstance(op["tid"], int) and (ex.t2r.get(op["tid"]) in rt or ex.s2r.get(ex.trial_study.get(op["tid"], -1)) in rs):
+            return True
+        if op.get("op") in ("getStudyIdFromName", "getAllStudies") and rs:
+            return True
+
+        def walk(o: Any) -> bool:
+            if isinstance(o, dict):
+                i = o.get("id")
+                if isinstance(i, int) and ("number" in o or "state" in o) and (ex.t2r.get(i) in rt or ex.s2r.get(ex.trial_study.get(i, -1)) in rs):
+                    return True
+                if isinstance(i, int) and "name" in o and ex.s2r.get(i) in rs:
+                    return True
+                return any(walk(v) for v in o.values())
+            if isinstance(o, list):
+                return any(walk(v) for v in o)
+            return False
+
+        return walk(obs) or walk(ref)
+
     def _target_deleted(self, op: dict[str, Any]) -> bool:
         if op["op"] in STUDY_READS:
             return op["sid"] in self.ex_ref.deleted_studies
@@ -282,9 +312,10 @@ class Runner:
             self.stats["reads"] += 1
             if _strip(obs) != _strip(ref):
                 agrees = mo is not None and K.compare_out(mo, obs) is None
-                if self.reused:
+                if self.reused and self._touches_reused_id(op, obs, ref):
                     sig = {"kind": "sqlite-id-reuse-after-delete", "base": self.base, "op": op["op"]}
-                elif ref.get("k") == "err" and ref.get("e") == "KeyError" and obs.get("k") != "err" and self._target_deleted(op) and agrees:
+                elif ref.get("k") == "err" and ref.get("e") == "KeyError" and obs.get("k") != "err" and self._target_deleted(op) and (agrees or self.reused):
+                    # (after an id-reuse event the contract model is switched off, so its agreement cannot be asked for)
                     sig = {"kind": "stale-after-foreign-delete-study", "op": op["op"], "client": self.kinds[node]["kind"]}
                     self.stats["foreign_delete"] += 1
                 else:
